@@ -616,6 +616,53 @@ def witnesses(rep):
                "the compiling twin no longer compiles: the witness above proves nothing", "witnesses/src/lib.rs", key="R2:witness-twin:" + re.sub(r"\W+", "-", name))
 
 
+def frontend_year_ranges(F, rep):
+    """R6 (every Y from 1900 to 2100 at every entry point): a constant range of year-like integers in a front-end crate — an
+    argument-parser restriction such as `value_parser!(i32).range(..)`, a validation of a request's `year` — must contain the whole
+    supported interval; `1900..2100` is one year short (seeded change C07-s5)."""
+    n = 0
+    for b in F.bodies.values():
+        if b.crate not in ("cgt_tool", "cgt_mcp", "cgt_wasm"):
+            continue
+        for i, lo, hi, incl, sp in _const_int_ranges(b):
+            if not (1000 <= lo <= 3000 and 1000 <= hi <= 3000):
+                continue
+            n += 1
+            last = hi if incl else hi - 1
+            ok = lo <= 1900 and last >= 2100
+            rep.ob("R6", f"{b.short[-60:]}:{lo}..{'=' if incl else ''}{hi}", ok, f"year range {lo}..={last} contains 1900..=2100" if ok else
+                   f"a front-end restricts years to {lo}..={last}: tax years {max(lo, 1900) if lo > 1900 else last + 1}… of the supported 1900–2100 are refused here "
+                   "although the library reports them", b.loc(sp), key=f"R6:{b.short[-60:]}:year-range")
+    rep.count("frontend_year_ranges", n)
+
+
+def _const_int_ranges(b):
+    if True:
+        found = []
+        for i, si, s in b.assigns():
+            rv = s["rv"]
+            if rv["k"] == "agg" and rv.get("adt", "").startswith("core::ops::range::Range") and len(rv["ops"]) == 2:
+                ks = [op_const(o) for o in rv["ops"]]
+                if all(k is not None and "int" in k for k in ks):
+                    found.append((i, int(ks[0]["int"]), int(ks[1]["int"]), "Inclusive" in rv["adt"], s["sp"]))
+        for i, t in b.calls():
+            if t["callee"].startswith("core::ops::range::RangeInclusive") and t["callee"].endswith("::new") and len(t["args"]) == 2:
+                ks = [op_const(a) for a in t["args"]]
+                if all(k is not None and "int" in k for k in ks):
+                    found.append((i, int(ks[0]["int"]), int(ks[1]["int"]), True, t["sp"]))
+        return found
+
+
+def controls(pctx, rep):
+    """C07-R6 expects no restricting range on today's tree: the detector must still see one where there is one"""
+    try:
+        b = pctx.F.one("year_range_short")
+        got = [(lo, hi, incl) for _, lo, hi, incl, _ in _const_int_ranges(b)]
+        rep.control("R6:year-range", (1900, 2100, False) in got, f"posctl::year_range_short yields constant ranges {got} (expected 1900..2100)")
+    except Exception as e:
+        rep.control("R6:year-range", False, f"constant-range detector failed on posctl::year_range_short: {e}")
+
+
 def run(ctx, rep):
     F = ctx.F
     if rep.tier == "thorough" and ctx.root == __import__("core").REPO:
@@ -634,3 +681,4 @@ def run(ctx, rep):
             rep.ob("R3", o["instance"], o["ok"], o["detail"], o["site"], key="R3:" + o["instance"])
     provenance(F, rep)
     sibling_builders(F, rep)
+    frontend_year_ranges(F, rep)
